@@ -211,6 +211,41 @@ class C15(Prop):
                                 naive = irsel.MODE_PREFIX[mode] + (str(temp) if mode in ("COOL", "HEAT") else "") + irsel.FAN_SUFFIX[fan] + ("_d1" if swing == "ON" else "")
                                 if key != naive:
                                     nontrivial += 1
+        # the same remote object, after thousands of different requests: some of the first ones again, a refused request twice in a
+        # row (the second refusal is a refusal too), and an accepted one right after a refused one
+        r2 = env.rng("C15", "again", irs["IRSetID"])
+        supported = irsel.capabilities(irs)["modes"]
+        unsupported = [m for m in MODES if m not in supported]
+        for rep in range(160):
+            state, fan, swing, prev = STATES[rep % 2], FANS[rep % 4], SWINGS[(rep // 4) % 2], PREV[(rep // 8) % 3]
+            mode = MODES[(rep // 3) % 5] if rep % 5 else (unsupported[rep % len(unsupported)] if unsupported else MODES[0])
+            temp = (rep * 7) % 61
+            sel = irsel.select(irs, state, mode, temp, fan, swing, prev)
+            if sel[0] == "unspecified":
+                continue
+            req = {"state": state, "mode": mode, "temp": temp, "fan": fan, "swing": swing, "previous": prev}
+            for attempt in (1, 2):
+                n += 1
+                acc.count("requests_repeated_on_a_well_used_remote")
+                try:
+                    cmd = remote.build_command(E["state"][state], E["mode"][mode], temp, E["fan"][fan], E["swing"][swing], E["state"][prev] if prev else None)
+                except RuntimeError as exc:
+                    if sel[0] != "reject_mode":
+                        acc.violation("decided-request-refused:on-a-well-used-remote", f"{irs['IRSetID']} request {req} (attempt {attempt}): RuntimeError {exc}", {"request": req})
+                    continue
+                except Exception as exc:
+                    acc.violation(f"build-raised:{type(exc).__name__}", f"{irs['IRSetID']} request {req}: {type(exc).__name__}: {exc}", {"request": req})
+                    continue
+                if sel[0] == "reject_mode":
+                    acc.violation("unsupported-mode-accepted:repeated", f"{irs['IRSetID']} request {req}: mode not in the set; attempt {attempt} of the same request in a row built a command",
+                                  {"set": irs, "request": req, "attempt": attempt})
+                    continue
+                real = acc.violation
+                acc.violation = lambda mech, summary, detail=None, case=None: real(mech + ":on-a-well-used-remote", summary, detail, case)
+                try:
+                    self._check_command(acc, cmd, irs, sel[1], req)
+                finally:
+                    acc.violation = real
         acc.ev(n - unspec)
         acc.skip_unspecified(unspec)
         acc.distinct(nontrivial)
